@@ -60,6 +60,7 @@ PROPERTY = 'C13'
 LEVEL = 'model_checking'
 
 KINDS = ('dir', 'single')
+ARCH_PREFIX = 'sound_d'      # ends in characters of the '_dir' suffix: the prefix is what precedes the LAST '_dir', nothing more is stripped
 LIMITS = (None, 0, 4, 1024)
 INDEXES = (None, 0, 1)
 CONFIGS = [(k, l, a) for k in KINDS for l in LIMITS for a in INDEXES]
@@ -149,7 +150,7 @@ class Model:
     def expect(self, op) -> tuple:
         """What must happen when `op` is executed now: ('ok',) | ('reject', why)."""
         k = op[0]
-        if k in ('open', 'reopen'):
+        if k in ('open', 'reopen', 'reload'):
             return ('ok',)
         if self.mode == 'r':
             return ('reject', 'readonly')
@@ -162,6 +163,9 @@ class Model:
     def apply(self, op) -> None:
         """Apply an operation that succeeded."""
         k = op[0]
+        if k == 'reload':
+            op = ['reopen', self.mode]
+            k = 'reopen'
         if k in ('open', 'reopen'):
             m = op[1]
             self.mode = m
@@ -202,7 +206,7 @@ def decode_archive(workdir: str, kind: str):
     """Decode the directory file with nothing but struct; locate every file's bytes on disk.
     Returns (entries, problems); entries: name -> dict(crc, pre_len, arch, off, alen, data)."""
     problems: list = []
-    fname = 'x_dir.vpk' if kind == 'dir' else 'x.vpk'
+    fname = ARCH_PREFIX + '_dir.vpk' if kind == 'dir' else ARCH_PREFIX + '.vpk'
     with open(os.path.join(workdir, fname), 'rb') as f:
         raw = f.read()
     if len(raw) < 12:
@@ -269,7 +273,7 @@ def decode_archive(workdir: str, kind: str):
                             problems.append(f'{name!r}: single-file archive refers to numbered archive {arch}')
                         else:
                             if arch not in archives:
-                                p = os.path.join(workdir, f'x_{arch:03}.vpk')
+                                p = os.path.join(workdir, f'{ARCH_PREFIX}_{arch:03}.vpk')
                                 try:
                                     with open(p, 'rb') as af:
                                         archives[arch] = af.read()
@@ -297,7 +301,7 @@ def decode_archive(workdir: str, kind: str):
 # helpers looking at the real objects
 
 def vpk_path(workdir: str, kind: str) -> str:
-    return os.path.join(workdir, 'x_dir.vpk' if kind == 'dir' else 'x.vpk')
+    return os.path.join(workdir, ARCH_PREFIX + '_dir.vpk' if kind == 'dir' else ARCH_PREFIX + '.vpk')
 
 
 def disk_digest(workdir: str) -> str:
@@ -427,7 +431,17 @@ class Runner:
             checked = i >= check_from
             exp = model.expect(op)
             k = op[0]
-            if k in ('open', 'reopen'):
+            if k == 'reload':
+                # load_dirfile() on the live handle: "erases all changes made to the object" = a reopen in the same mode
+                try:
+                    h.load_dirfile()
+                except Exception as exc:  # noqa: BLE001
+                    acc.fail('open_raised', case, f'cfg={cfg} history={hist}\n step {i} {op}: load_dirfile() raised {type(exc).__name__}: {exc}',
+                             **self.sig(cfg, model, exc=type(exc).__name__, mode=model.mode))
+                    return None, False, ('open_raised',)
+                model.apply(['reopen', model.mode])
+                result = 'ok'
+            elif k in ('open', 'reopen'):
                 h = None
                 try:
                     h = VPK(path, mode=op[1], dir_data_limit=limit)
@@ -753,6 +767,10 @@ def ops_for(model: Model, menu: dict, limit) -> list:
         if menu['ro']:
             out.append(('reopen', 'r'))
         out.append(('reopen', 'a'))
+        if model.mode != 'w' and menu.get('reload'):
+            out.append(('reload',))
+    if model.mode == 'w' and menu.get('reload'):
+        out.append(('reload',))          # in write mode this starts over with an empty archive, on the same object
     out.append(('reopen', 'w'))
     return out
 
@@ -762,7 +780,7 @@ LATTICES = {
     # wide : boundary sizes, three names sharing extension / folder, every rejected operation, read-only handles
     'wide': ({'names': NAMES[:3], 'sizes': 'edge', 'errors': True, 'new': True, 'ro': True}, ('w', 'a'), 3, 4),
     # deep : long histories through flush / reopen 'a' / reopen 'w' with two files that both have an archive part
-    'deep': ({'names': NAMES[:2], 'sizes': 'two', 'errors': False, 'new': False, 'ro': False}, ('w',), 5, 6),
+    'deep': ({'names': NAMES[:2], 'sizes': 'two', 'errors': False, 'new': True, 'ro': False, 'reload': True}, ('w',), 5, 6),
     # sizes: every ordered pair (triple) of sizes of the full menu on two names
     'sizes': ({'names': NAMES[:2], 'sizes': 'full', 'errors': False, 'new': False, 'ro': False}, ('w',), 2, 3),
     # names: all six names (no extension, empty stem, nested folders): directory tree clean-up on delete
